@@ -449,8 +449,10 @@ def evalFlag (segFuel : Nat) : Nat → Env → Flag → List String → St → F
 /-- Number of distinct keys (for the fuel bound). -/
 def distinctCount (ks : List String) : Nat := ks.eraseDups.length
 
-def flagFuel (s : Store) : Nat := distinctCount (s.flags.map (·.key)) + 2
-def segFuel (s : Store) : Nat := distinctCount (s.segments.map (·.key)) + 2
+/-- The fuel counts the distinct OWN keys of the stored items: every nested evaluation appends the own
+key of an item returned by the store to the chain, and that key was not yet on the chain. -/
+def flagFuel (s : Store) : Nat := distinctCount (s.flags.map (·.2.key)) + 2
+def segFuel (s : Store) : Nat := distinctCount (s.segments.map (·.2.key)) + 2
 
 inductive Outcome where
   | done | outOfFuel
